@@ -201,6 +201,10 @@ class BinaryConstant(_Constant):
             m = re.match(r"^b'(.+)'\Z", value)
             if m:
                 value = m.group(1)
+        if not value:
+            # (Valid base64, for no bytes at all -- but a binary literal has
+            # at least one group of base64 characters.)
+            raise ValueError("must contain a base64 encoded string")
         try:
             base64.b64decode(value, validate=True)
             self.value = value
